@@ -354,8 +354,11 @@ def check_suffix_slices(ctx, num=6):
 def check_op_idx(ctx, num=7):
     P = ctx.P
     ws = attr_writes(P, "_current_op_idx")
-    ctx.count_min("writers of _current_op_idx", len(ws), 2)
+    ctx.count_min("writers of _current_op_idx", len(ws), 1)
     gen = P.fn(CT, "Container._tick_generator")
+    if not any(w.fn.node is gen.node for w in ws):
+        ctx.ob(num, "K3", "_current_op_idx advances when an operator completes", False, gen, gen.node, construct="self._current_op_idx += 1",
+               detail="the tick generator never advances the index: kill/suspend would touch operators that already completed")
     for w in ws:
         who = f"{w.fn.mod.rel}::{w.fn.qual}"
         if who == f"{CT}::Container.__init__":
